@@ -97,6 +97,7 @@ def make_spec():
     g["result_kind"] = ("enum:" + ",".join(RESULT_KINDS), "0")
     g["queued_delivered"] = ("set[str]", "set()")   # phases already handed over from Order's queue
     g["versions_via"] = ("enum:none,queue,direct", "0")   # how the peer's versions reached the application
+    g["key_to_app"] = ("enum:none,delivered,swallowed", "0")   # Boss.got_key: handed to the application / ignored while closing
     g["order_drain_pending"] = ("bool", "False")    # Order.drain has queued messages still to hand to Receive (see order_drain)
     g["close_mood"] = ("enum:none,happy,lonely,scary,errory,unwelcome", "0")
     g["tx_close_mood"] = ("enum:none,happy,lonely,scary,errory,unwelcome", "0")
@@ -368,8 +369,9 @@ def make_reg():
             it.ctx.prove(z3.And(t("w_code"), z3.Not(t("w_key"))), "post:C18:key-after-code-once",
                          {"kind": "post", "src": "got_key after got_code, at most once"})
             g.fields["w_key"] = VBool(True)
+            g.fields["key_to_app"] = VInt(1)
         elif meth == "got_verifier":
-            it.ctx.prove(z3.And(t("w_key"), z3.Not(t("w_verifier"))), "post:C18:verifier-after-key-once",
+            it.ctx.prove(z3.And(g.fields["key_to_app"].z == 1, z3.Not(t("w_verifier"))), "post:C18:verifier-after-key-once",
                          {"kind": "post", "src": "got_verifier after got_key, at most once"})
             it.ctx.prove(t("good_decrypt"), "post:C01:verifier-only-after-good-decrypt",
                          {"kind": "post", "src": "a verifier is reported only after a peer message decrypted"})
@@ -458,6 +460,8 @@ def make_reg():
             # a peer message or server error that shows up after that (the rows ignore it) does not change it
             if flag and state in ("S0_empty", "S1_lonely", "S2_happy"):
                 g.fields[flag] = VBool(True)
+            if name == "got_key" and state in ("S3_closing", "S4_closed"):
+                g.fields["key_to_app"] = VInt(2)      # the key arrived after closing started: the row ignores it
         if m.cls == "Terminator" and name == "close" and args:
             g.fields["close_mood"] = mood_enum(it, args[0])
         if m.cls == "Mailbox" and name == "add_message" and args:
@@ -885,7 +889,7 @@ def engine():
     # its body may change is havocked); an undeclared boundary call counts as touching all ghost state
     e.ghost_effects = {
         "WS.sendMessage": TX_GHOST,
-        "WormholeApp.*": ["w_code", "w_key", "w_verifier", "w_versions", "w_closed", "versions_via"],
+        "WormholeApp.*": ["w_code", "w_key", "w_verifier", "w_versions", "w_closed", "versions_via", "key_to_app"],
         "DilatorB.*": ["d_stop_called", "d_stopped_done"],
         "SecretBox.decrypt": ["good_decrypt"], "SecretBox.encrypt": [], "SPAKE2.start": [], "SPAKE2.finish": [],
         "sha256.digest": [], "ClientService.*": [],
@@ -907,7 +911,7 @@ def engine():
     }
     e.input_ghost_effects = {("Boss", "happy"): ["happy_seen"], ("Boss", "scared"): ["scared_seen"],
                              ("Boss", "rx_error"): ["server_error_seen"], ("Boss", "rx_unwelcome"): ["unwelcome_seen"],
-                             ("Terminator", "close"): ["close_mood"], ("Mailbox", "add_message"): ["version_added"]}
+                             ("Terminator", "close"): ["close_mood"], ("Boss", "got_key"): ["key_to_app"], ("Mailbox", "add_message"): ["version_added"]}
     e.field_ghost_effects = {("Boss", "_result"): ["result_kind"], ("RendezvousConnector", "_stopping"): ["rc_stop_called"]}
     e.local_types = {W + "_rendezvous.py:RendezvousConnector._response_handle_nameplates": {"nids": "set[json]"},
                      W + "_input.py:Input._get_nameplate_completions": {"completions": "set[str]"}}
